@@ -5,6 +5,7 @@ package main
 import (
 	"fmt"
 	"os"
+	"sync/atomic"
 
 	"github.com/TheCacophonyProject/thermal-recorder/motion"
 	"github.com/TheCacophonyProject/thermal-recorder/zzverif/vh"
@@ -13,6 +14,9 @@ import (
 type Script struct {
 	Cap int      `json:"cap"`
 	Ops []string `json:"ops"`
+	// concurrent mode: Conc > 0 = number of CopyRecent calls made while a producer goroutine writes and moves
+	Conc int `json:"conc"`
+	Side int `json:"side"`
 }
 type In struct {
 	Scripts []Script `json:"scripts"`
@@ -25,8 +29,75 @@ func main() {
 	defer out.Flush()
 	cam := vh.Cam{X: 2, Y: 2, F: 9}
 	for si, sc := range in.Scripts {
+		if sc.Conc > 0 {
+			runConc(out, si, sc)
+			continue
+		}
 		runScript(out, cam, si, sc)
 	}
+}
+
+// runConc: the producer uses the ring as the frame loop does (fill Current(), then Move()); the consumer calls
+// CopyRecent concurrently, protected by nothing but the FrameLoop's own mutex.  Capacity >= 2, so the slot being
+// filled is never the 'recent' one.
+func runConc(out *vh.Out, si int, sc Script) {
+	defer func() {
+		if p := recover(); p != nil {
+			out.Emit(map[string]interface{}{"ev": "panic", "msg": fmt.Sprint(p)})
+		}
+	}()
+	cam := vh.Cam{X: sc.Side, Y: sc.Side, F: 9}
+	fl := motion.NewFrameLoop(sc.Cap, cam)
+	out.Emit(map[string]interface{}{"ev": "new", "cap": sc.Cap, "script": si})
+	var moves int64
+	stop := make(chan struct{})
+	done := make(chan struct{})
+	produce := func(tag int64) {
+		f := fl.Current()
+		for y := range f.Pix {
+			row := f.Pix[y]
+			for x := range row {
+				row[x] = uint16(tag)
+			}
+		}
+		fl.Move()
+		atomic.StoreInt64(&moves, tag)
+	}
+	produce(1)
+	produce(2)
+	go func() {
+		defer close(done)
+		for tag := int64(3); tag < 65000; tag++ { // pixel values are 16 bit
+			select {
+			case <-stop:
+				return
+			default:
+			}
+			produce(tag)
+		}
+	}()
+	torn, stale := 0, 0
+	for i := 0; i < sc.Conc; i++ {
+		m0 := atomic.LoadInt64(&moves)
+		c := fl.CopyRecent()
+		m1 := atomic.LoadInt64(&moves)
+		first, last := c.Pix[0][0], c.Pix[sc.Side-1][sc.Side-1]
+		mixed := first != last
+		for y := 0; y < sc.Side && !mixed; y += 7 {
+			if c.Pix[y][sc.Side/2] != first {
+				mixed = true
+			}
+		}
+		if mixed {
+			torn++
+		} else if t := int64(first); t < m0 || t > m1+1 {
+			stale++
+		}
+	}
+	close(stop)
+	<-done
+	out.Emit(map[string]interface{}{"ev": "conc", "cap": sc.Cap, "calls": sc.Conc, "torn": torn, "stale": stale,
+		"moves": atomic.LoadInt64(&moves)})
 }
 
 func runScript(out *vh.Out, cam vh.Cam, si int, sc Script) {
